@@ -150,6 +150,15 @@ class C10(Prop):
         obs = {}
         try:
             blk = PythonBlock(text, startpos=FilePos(start[0], start[1]))
+            blk.ast_node            # parse now ...
+            # ... then parse and split the same text at another start position (as get_doctests does for a
+            # repeated example): the first block's answers must not depend on it
+            other = PythonBlock(text, startpos=FilePos(start[0] + 7, 1 if start[1] > 1 else 5))
+            try:
+                other.statements
+                list(other.string_literals())
+            except Exception:
+                pass
             sts = blk.statements
             obs["pieces"] = [dict(text=s.text.joined, start=[s.startpos.lineno, s.startpos.colno],
                                   node=(s.ast_node is not None),
@@ -160,6 +169,8 @@ class C10(Prop):
             obs["errmsg"] = str(e)[:200]
         try:
             blk2 = PythonBlock(text, startpos=FilePos(start[0], start[1]))
+            blk2.ast_node
+            list(PythonBlock(text, startpos=FilePos(start[0] + 3, 1)).string_literals())
             obs["strings"] = [[n.startpos.lineno, n.startpos.colno] for n in blk2.string_literals()]
         except Exception as e:
             obs["strings_err"] = type(e).__name__ + ": " + str(e)[:150]
